@@ -40,14 +40,12 @@ package service
 //@   loop 2 modifies elems(*SchemeData)
 //@   loop 2 modifies elems(*RequirementData)
 //@   loop 3 modifies elems(*SchemeData)
-//@   modifies all
 
 // "The example command never modifies a file that already exists": the service scaffold is marked SkipExist.
 //@ func exampleServiceFile
 //@   opt inline none
 //@   property C09
 //@   ensures* user.owned.file: result != nil ==> result.SkipExist
-//@   modifies all
 
 // ---- generated output does not depend on map iteration order (C09) --------------------------------
 // Every function of this package that ranges over a map is either proved independent of the iteration order
@@ -59,4 +57,3 @@ package service
 //@   opt inline none
 //@   opt loopframes none
 //@   property C09
-//@   modifies all
